@@ -27,6 +27,7 @@ package security
 
 //@ func estimateHeaderSize
 //@   property C17
+//@   safety
 //@   loop 1 invariant true
 //@   loop 2 invariant true
 //@   ensures true
@@ -46,6 +47,7 @@ package security
 
 //@ func (rl *RateLimitValidator) calculateRemaining
 //@   property C17
+//@   safety
 //@   requires limiterInfo != nil
 //@   ensures res >= 0
 
